@@ -7,6 +7,7 @@ import (
 	"errors"
 	"log/slog"
 	"net"
+	"sync"
 	"time"
 
 	"github.com/quic-go/quic-go"
@@ -37,6 +38,10 @@ type Fetcher struct {
 		LocalAddr  udp.UDPAddr
 		RemoteAddr udp.UDPAddr
 	}
+	// A measurement that has not returned by the deadline of its round goes
+	// on in its goroutine while the next round uses the same fetcher: the
+	// cached data is guarded, and a key exchange in progress is waited for.
+	mu   sync.Mutex
 	data Data
 }
 
@@ -125,6 +130,8 @@ func (f *Fetcher) exchangeKeys(ctx context.Context) error {
 
 // FetchData returns either cached data or requests new Data by performing a NTS key exchange.
 func (f *Fetcher) FetchData(ctx context.Context) (Data, error) {
+	f.mu.Lock()
+	defer f.mu.Unlock()
 	if len(f.data.Cookie) == 0 {
 		err := f.exchangeKeys(ctx)
 		if err != nil {
@@ -141,6 +148,8 @@ func (f *Fetcher) FetchData(ctx context.Context) (Data, error) {
 
 // StoreCookie stores a cookie byte slice and appends it to the cached data.
 func (f *Fetcher) StoreCookie(cookie []byte) {
+	f.mu.Lock()
+	defer f.mu.Unlock()
 	if len(cookie) > MaxCookieLen {
 		// cannot be sent in a request later on
 		return
